@@ -428,6 +428,18 @@ func (s *programState) getCachedBalance(account string, asset string) *big.Int {
 	return assetBalance
 }
 
+// Total amount the current statement has already drawn from the given account
+// (the cached balance is only updated once the statement's postings are known)
+func (s *programState) alreadySentBy(account string) *big.Int {
+	total := big.NewInt(0)
+	for _, sender := range s.Senders {
+		if sender.Name == account {
+			total.Add(total, sender.Monetary)
+		}
+	}
+	return total
+}
+
 func (s *programState) sendAllToAccount(accountLiteral parser.ValueExpr, ovedraft *big.Int) (*big.Int, InterpreterError) {
 	account, err := evaluateExprAs(s, accountLiteral, expectAccount)
 	if err != nil {
@@ -442,8 +454,9 @@ func (s *programState) sendAllToAccount(accountLiteral parser.ValueExpr, ovedraf
 
 	balance := s.getCachedBalance(*account, s.CurrentAsset)
 
-	// we sent balance+overdraft
+	// we sent balance+overdraft (minus what this statement already took from the account)
 	sentAmt := new(big.Int).Add(balance, ovedraft)
+	sentAmt.Sub(sentAmt, s.alreadySentBy(*account))
 	// an account that is already below its limit has nothing to give
 	if sentAmt.Cmp(big.NewInt(0)) == -1 {
 		sentAmt.Set(big.NewInt(0))
@@ -535,6 +548,8 @@ func (s *programState) trySendingToAccount(accountLiteral parser.ValueExpr, amou
 
 		// that's the amount we are allowed to send (balance + overdraft)
 		safeSendAmt := new(big.Int).Add(balance, overdraft)
+		// what this statement already took from the account is not available twice
+		safeSendAmt.Sub(safeSendAmt, s.alreadySentBy(*account))
 		// an account that is already below its limit has nothing to give
 		if safeSendAmt.Cmp(big.NewInt(0)) == -1 {
 			safeSendAmt.Set(big.NewInt(0))
